@@ -57,7 +57,7 @@ func TestC03(t *testing.T) {
 				return "generated program rejected by Prepare (generator soundness): " + short(ans.PrepareErr, 400)
 			}
 			if owner, _ := anomaly(ans); owner != "" && owner != "C03" {
-				st.ForeignAnomaly(owner)
+				st.ForeignAnomaly(owner, c)
 				return ""
 			}
 			if ans.Returned.Err != "" && strings.Contains(ans.Returned.Err, fallbackText) && len(m.Producible()) > 0 {
